@@ -28,7 +28,7 @@ def has_none(v):
 
 
 def cases(rng, tier):
-    n = 1500 if tier == 'quick' else 30000
+    n = 15000 if tier == 'quick' else 300000
     out = []
     for i in range(n):
         r = rng.random()
